@@ -68,6 +68,11 @@ def shards(tier, seed):
             for func in funcs_for(dtype):
                 out.append(dict(engine=engine, dtype=dtype, func=func, nb=b["n_batched"], n1=b["n_1d"],
                                 extra=(tier == "thorough")))
+    # infinity leg (infinities are ordinary values for NumPy) and size-boundary leg (group sizes around 2**8 and 2**16)
+    for engine in space.ENGINES:
+        for func in INF_FUNCS:
+            out.append(dict(engine=engine, dtype="float64", func=func, leg="inf", n=3 if tier == "quick" else 4))
+        out.append(dict(engine=engine, dtype="float64", func="*", leg="sizes"))
     # heavy (JIT) shards first so the pool is balanced
     out.sort(key=lambda s: 0 if s["engine"] in ("numba", "numbagg") else 1)
     return out
@@ -191,9 +196,69 @@ def check_case(res, engine, dtype, func, kind, requested, lab_tuple, V, oned=Fal
                     size=len(lab_tuple))
 
 
+INF_FUNCS = "sum nansum prod nanprod mean nanmean max nanmax min nanmin count first last nanfirst nanlast".split()
+A_INF4 = (1.0, float("nan"), float("inf"), -float("inf"))
+SIZE_FUNCS = "count sum nansum mean nanmean var nanvar max nanmin nanlast".split()
+
+
+def run_inf(res, shard):
+    engine, func = shard["engine"], shard["func"]
+    for n in range(1, shard["n"] + 1):
+        V = space.value_matrix(A_INF4, n, "float64")
+        for lab_tuple in itertools.product(FLOAT_LABELS, repeat=n):
+            check_case(res, engine, "float64", func, "float", None, lab_tuple, V)
+            res.nontrivial += V.shape[0]
+    res.sample(dict(leg="inf", engine=engine, func=func, alphabet=["1", "nan", "inf", "-inf"], n=shard["n"]))
+    return res
+
+
+def run_sizes(res, shard):
+    """One big group whose size sits on a power-of-two boundary (narrow counters wrap there) next to a small group."""
+    engine = shard["engine"]
+    for size in (255, 256, 257, 65535, 65536, 65537):
+        for nan_every in (0, 7):
+            big = np.ones(size)
+            if nan_every:
+                big[::nan_every] = np.nan
+            vals = np.concatenate([big, [2.0, 4.0]])
+            V = np.stack([vals, vals * -3.0])
+            labels = np.concatenate([np.zeros(size), [1.0, 1.0]])
+            perm = np.argsort((np.arange(size + 2) * 7919) % (size + 2), kind="stable")  # a fixed shuffle: unsorted labels
+            for order in ("sorted", "shuffled"):
+                Vv, lab = (V, labels) if order == "sorted" else (V[:, perm], labels[perm])
+                for func in SIZE_FUNCS:
+                    out = e1.call_reduce(Vv, lab, func=func, engine=engine)
+                    res.evaluations += 2
+                    res.states += 2
+                    res.transitions += 1
+                    res.nontrivial += 2
+                    case = dict(leg="sizes", engine=engine, func=func, group_size=size, nan_every=nan_every, order=order)
+                    tags = dict(engine=str(engine), func=func, labels="sizes", kind="value")
+                    if out.kind != "ok":
+                        res.outcomes[f"{out.kind}:{out.exc}"] += 1
+                        if out.kind == "error" or engine in (None, "numpy"):
+                            res.violate("eager-error", case, out.brief(), "a result", tags=dict(tags, kind=out.kind), size=size)
+                        continue
+                    res.compared += 2
+                    exp = np.stack([np.array([rm.reduce_members(func, Vv[r:r + 1][:, lab == g], positions=np.flatnonzero(lab == g))[0][0] for g in (0.0, 1.0)], dtype=float)
+                                    for r in range(2)])
+                    bad = rm.mismatch(np.asarray(out.result, dtype=float), exp, rtol=1e-9)
+                    if bad.any():
+                        res.outcomes["mismatch"] += 1
+                        res.violate("eager-value", case, np.asarray(out.result), exp, tags=tags, size=size)
+                    else:
+                        res.outcomes["ok"] += 1
+    res.sample(dict(leg="sizes", engine=engine, group_sizes=[255, 256, 257, 65535, 65536, 65537], funcs=SIZE_FUNCS))
+    return res
+
+
 def run_shard(shard):
     e1.reset_flox_caches()
     res = Result()
+    if shard.get("leg") == "inf":
+        return run_inf(res, shard)
+    if shard.get("leg") == "sizes":
+        return run_sizes(res, shard)
     engine, dtype, func = shard["engine"], shard["dtype"], shard["func"]
     sampled = False
     nb, n1 = shard["nb"], shard["n1"]
@@ -231,6 +296,9 @@ def replay(payload):
     res = Result()
     c = payload["case"]
     from mc.runner import unjson_float
+
+    if c.get("leg") == "sizes":
+        return run_sizes(res, dict(engine=c["engine"]))
 
     V = np.array(unjson_float(c["values"]), dtype=c["dtype"])
     V2 = V.reshape(1, -1)
